@@ -18,7 +18,7 @@ PROPS["C20"] = dict(
          "row shape are executed and disassembled with ArArpSettings; moved register, step, offset cell and printed "
          "%rN/step/offset names compared with the table's decoding. C: generator stream (self-seeded, treated as workload): "
          "for every record addressing memory through ArRn/ArpRn the register selected by the table's decoding of "
-         "before.ar/arp must point into its test window. distinct_nontrivial = distinct (word, field, kind, value new/same), "
+         "before.ar/arp must point into its test window. The instruction paths always include the value the word currently reads (write back what is there). annot-history: purity histories (see C02/C05) with the C20 property id. distinct_nontrivial = distinct (word, field, kind, value new/same), "
          "(instruction form, word), (ar/arp word, operand indices, step code, offset code), (ar/arp word, row shape), "
          "(generator row shape, operand index, register) keys that were executed and compared",
     floors={Q: {"setget_evals": 3 * 19 * 65536, "readback_checked": 3 * 19 * 65536, "instr_runs": 200000,
